@@ -33,21 +33,25 @@ const tErr = "TestErrorContract"
 // Fault is one planned failure of the user function.
 type Fault struct {
 	Pos      int    `json:"pos"`
-	Kind     string `json:"kind"` // error | wrapped | panic-error | panic-string | panic-value | skip | eof | abort | ctx
+	Kind     string `json:"kind"` // error | wrapped | panic-error | panic-string | panic-value | panic-eof | panic-skip | panic-ctx | skip | eof | abort | ctx
 	Excluded bool   `json:"excluded"`
+	// Slow: the call fails late - it waits (bounded) until another call's
+	// stopping failure has returned and then a little longer, so that its
+	// own failure arrives while the group is already being torn down.
+	Slow bool `json:"slow,omitempty"`
 }
 
 type Case struct {
-	Construct string  `json:"construct"` // ProcessParallel | ParallelForEach | Worker | Map | Generate
-	Workers   int     `json:"workers"`
-	N         int     `json:"n"`
-	ContinueOnError bool `json:"continue_on_error"`
-	ContinueOnPanic bool `json:"continue_on_panic"`
-	IncludeCtx      bool `json:"include_context_errors"`
-	Collector string  `json:"collector"` // default | erc | pair
-	Faults    []Fault `json:"faults"`
-	Yields    []int   `json:"yields"`
-	Procs     int     `json:"gomaxprocs"`
+	Construct       string  `json:"construct"` // ProcessParallel | ParallelForEach | Worker | Map | Generate
+	Workers         int     `json:"workers"`
+	N               int     `json:"n"`
+	ContinueOnError bool    `json:"continue_on_error"`
+	ContinueOnPanic bool    `json:"continue_on_panic"`
+	IncludeCtx      bool    `json:"include_context_errors"`
+	Collector       string  `json:"collector"` // default | erc | pair
+	Faults          []Fault `json:"faults"`
+	Yields          []int   `json:"yields"`
+	Procs           int     `json:"gomaxprocs"`
 }
 
 func goid() int {
@@ -71,7 +75,7 @@ func (c *Case) classify(f Fault) (stops, reported bool) {
 		return !c.ContinueOnError, !f.Excluded
 	case "abort":
 		return !c.ContinueOnError, true
-	case "panic-error", "panic-string", "panic-value":
+	case "panic-error", "panic-string", "panic-value", "panic-eof", "panic-skip", "panic-ctx":
 		return !c.ContinueOnPanic, true
 	case "skip":
 		return false, false
@@ -84,20 +88,21 @@ func (c *Case) classify(f Fault) (stops, reported bool) {
 }
 
 type run struct {
-	c        *Case
-	mu       sync.Mutex
-	started  map[int]int // item -> number of starts
-	order    []int       // items in start order
-	byG      map[int][]int
-	executed map[int]bool // fault positions that fired
-	clock    atomic.Int64
-	failedAt atomic.Int64 // stamp taken right before the first stopping failure returned
-	failG    atomic.Int64
-	failItem atomic.Int64
+	c            *Case
+	mu           sync.Mutex
+	started      map[int]int // item -> number of starts
+	order        []int       // items in start order
+	byG          map[int][]int
+	executed     map[int]bool // fault positions that fired
+	clock        atomic.Int64
+	failedAt     atomic.Int64 // stamp taken right before the first stopping failure returned
+	failG        atomic.Int64
+	failItem     atomic.Int64
 	startedAfter atomic.Int64
-	hold     chan struct{} // items that start after the failure wait here
-	gctx     atomic.Value  // the context the library handed to the failing call
-	bases    map[int]error
+	hold         chan struct{} // items that start after the failure wait here
+	drained      chan struct{} // closed when the consumer has seen the end of the output / the call returned
+	gctx         atomic.Value  // the context the library handed to the failing call
+	bases        map[int]error
 }
 
 func (r *run) fault(pos int) (Fault, bool) {
@@ -129,6 +134,13 @@ func (r *run) body(ctx context.Context, v int) error {
 	r.mu.Lock()
 	r.executed[v] = true
 	r.mu.Unlock()
+	if f.Slow {
+		vkit.Eventually(30*time.Millisecond, func() bool { return r.failedAt.Load() != 0 })
+		select {
+		case <-r.drained:
+		case <-time.After(15 * time.Millisecond):
+		}
+	}
 	stops, _ := r.c.classify(f)
 	if r.c.Construct == "Generate" && f.Kind == "eof" {
 		// the regular end of a generator: ends this worker only
@@ -151,6 +163,13 @@ func (r *run) body(ctx context.Context, v int) error {
 		panic(fmt.Sprint("string panic at ", v))
 	case "panic-value":
 		panic(panicValue{v})
+	case "panic-eof":
+		// a panic whose value wraps a sentinel is still a panic
+		panic(fmt.Errorf("%w: reading frame: %w", base, io.EOF))
+	case "panic-skip":
+		panic(fmt.Errorf("%w: %w", base, fun.ErrIteratorSkip))
+	case "panic-ctx":
+		panic(fmt.Errorf("%w: %w", base, context.Canceled))
 	case "skip":
 		return fun.ErrIteratorSkip
 	case "eof":
@@ -182,7 +201,7 @@ func runCase(c *Case) (string, string, *run) {
 		defer runtime.GOMAXPROCS(old)
 	}
 	limit := vkit.Limit()
-	r := &run{c: c, started: map[int]int{}, byG: map[int][]int{}, executed: map[int]bool{}, hold: make(chan struct{}), bases: map[int]error{}}
+	r := &run{c: c, started: map[int]int{}, byG: map[int][]int{}, executed: map[int]bool{}, hold: make(chan struct{}), drained: make(chan struct{}), bases: map[int]error{}}
 	opts := c.options()
 	var excluded []error
 	for _, f := range c.Faults {
@@ -221,6 +240,8 @@ func runCase(c *Case) (string, string, *run) {
 	go func() {
 		defer close(finished)
 		defer func() { escaped = recover() }()
+		drainedOnce := sync.OnceFunc(func() { close(r.drained) })
+		defer drainedOnce()
 		switch c.Construct {
 		case "ProcessParallel":
 			result = fun.SliceIterator(in).ProcessParallel(func(ctx context.Context, v int) error { return r.body(ctx, v) }, opts...).Run(ctx)
@@ -236,6 +257,7 @@ func runCase(c *Case) (string, string, *run) {
 		case "Map":
 			it := fun.Map(fun.SliceIterator(in), func(ctx context.Context, v int) (int, error) { return v, r.body(ctx, v) }, opts...)
 			output, _ = it.Slice(ctx)
+			drainedOnce()
 			result = ers.Join(it.Close(), custom())
 		case "Generate":
 			var idx atomic.Int64
@@ -247,6 +269,7 @@ func runCase(c *Case) (string, string, *run) {
 				return v, r.body(ctx, v)
 			}).GenerateParallel(opts...)
 			output, _ = it.Slice(ctx)
+			drainedOnce()
 			result = ers.Join(it.Close(), custom())
 		}
 	}()
@@ -316,7 +339,7 @@ loop:
 			} else if errors.Is(result, base) {
 				return "excluded-reported", fmt.Sprintf("the error of item %d is listed in ExcludedErrors but is reported: %v", f.Pos, result), r
 			}
-		case "panic-error":
+		case "panic-error", "panic-eof", "panic-skip", "panic-ctx":
 			anyReportable = true
 			if !errors.Is(result, base) || !errors.Is(result, fun.ErrRecoveredPanic) {
 				return "swallowed", fmt.Sprintf("panic(error) of item %d: result %v lacks the error or ErrRecoveredPanic", f.Pos, result), r
@@ -346,7 +369,15 @@ loop:
 	if !hasAbort && (result == nil) == anyReportable {
 		return "nil-iff", fmt.Sprintf("result is %v but a reportable failure occurred: %v", result, anyReportable), r
 	}
-	if errors.Is(result, io.EOF) || errors.Is(result, fun.ErrIteratorSkip) {
+	// a sentinel that travels inside a reported panic value is part of
+	// that panic's error, not noise
+	carried := map[string]bool{}
+	for _, f := range c.Faults {
+		if r.executed[f.Pos] {
+			carried[f.Kind] = true
+		}
+	}
+	if (errors.Is(result, io.EOF) && !carried["panic-eof"]) || (errors.Is(result, fun.ErrIteratorSkip) && !carried["panic-skip"]) {
 		return "noise-reported", fmt.Sprintf("io.EOF / ErrIteratorSkip is reported: %v", result), r
 	}
 	ctxFault := false
@@ -354,7 +385,7 @@ loop:
 		ctxFault = ctxFault || f.Kind == "ctx"
 	}
 	_ = ctxFault
-	if !c.IncludeCtx && errors.Is(result, context.Canceled) {
+	if !c.IncludeCtx && errors.Is(result, context.Canceled) && !carried["panic-ctx"] {
 		return "noise-reported", fmt.Sprintf("a context error is reported without IncludeContextExpirationErrors: %v", result), r
 	}
 	for v, n := range r.started {
@@ -403,7 +434,7 @@ loop:
 	return "", "", r
 }
 
-var faultKinds = []string{"error", "error", "wrapped", "panic-error", "panic-string", "panic-value", "skip", "eof", "abort", "ctx"}
+var faultKinds = []string{"error", "error", "wrapped", "panic-error", "panic-string", "panic-value", "panic-eof", "panic-skip", "panic-ctx", "skip", "eof", "abort", "ctx"}
 
 func genCase(t *rapid.T) *Case {
 	c := &Case{
@@ -439,6 +470,18 @@ func genCase(t *rapid.T) *Case {
 		}
 		c.Faults = append(c.Faults, f)
 	}
+	// in-flight pair: a second failure right behind the first one, which
+	// is still inside the user function when the first failure stops the
+	// group (needs >= 2 workers to overlap; with one worker it simply
+	// comes later)
+	if rapid.IntRange(0, 3).Draw(t, "inFlightPair") == 0 && c.N >= 2 {
+		p := rapid.IntRange(0, c.N-2).Draw(t, "pairPos")
+		if !used[p] && !used[p+1] {
+			c.Faults = append(c.Faults,
+				Fault{Pos: p, Kind: rapid.SampledFrom([]string{"error", "wrapped", "panic-error", "panic-string"}).Draw(t, "firstKind")},
+				Fault{Pos: p + 1, Kind: rapid.SampledFrom([]string{"error", "wrapped", "panic-error", "panic-value"}).Draw(t, "secondKind"), Slow: true})
+		}
+	}
 	return c
 }
 
@@ -471,6 +514,9 @@ func TestErrorContract(t *testing.T) {
 		cls := []string{"construct:" + c.Construct, fmt.Sprintf("continueOnError:%v", c.ContinueOnError), fmt.Sprintf("continueOnPanic:%v", c.ContinueOnPanic), "collector:" + c.Collector}
 		for _, f := range c.Faults {
 			cls = append(cls, "fault:"+f.Kind)
+			if f.Slow {
+				cls = append(cls, "fault:slow-second-failure")
+			}
 			if f.Excluded {
 				cls = append(cls, "fault:excluded")
 			}
